@@ -32,6 +32,12 @@ func genC09(seed uint64, idx int, tier string) *Scenario {
 		// history of N sequential connections to one service
 		svcs := c01Services()
 		s := svcs[(idx/4)%len(svcs)]
+		if (idx/4)%3 == 0 {
+			s = *svcByKey("ftp") // passive sockets, data connections, per-session goroutines: the richest in resources
+			if len(svcs) < len(allServices)-1 {
+				s = svcs[(idx/4)%len(svcs)]
+			}
+		}
 		sc = &Scenario{Engine: "hostile", Params: map[string]interface{}{"services": s.Key, "history": true}}
 		sc.Config = baseConfig + "\n[service.probe]\ntype=\"echo\"\n\n[[port]]\nport=\"tcp/7007\"\nservices=[\"probe\"]\n" + s.config("svc0")
 		n := []int{1, 2, 3, 10, 50, 200}[r.Intn(6)]
@@ -46,6 +52,9 @@ func genC09(seed uint64, idx int, tier string) *Scenario {
 		d := ps[r.Intn(len(ps))]
 		if s.Key == "ftp" && r.Chance(0.5) {
 			d = [][]byte{[]byte("USER anonymous\r\n"), []byte("PASS anonymous\r\n"), []byte(r.Pick([]string{"PASV", "EPSV"}) + "\r\n")}
+			if r.Chance(0.5) {
+				d = append(d, []byte(r.Pick([]string{"LIST", "NLST", "RETR f", "STOR f"})+"\r\n"))
+			}
 		}
 		for k := 0; k < n; k++ {
 			a.Ops = append(a.Ops, Op{K: "conn"})
